@@ -1,17 +1,22 @@
-//! C25: paired conversion functions.  Generic: the case carries two VRL sources; `fwd` is compiled with the
-//! real compiler + stdlib and run on the case's event (arguments are read from event fields such as `.x`,
-//! so they are runtime-typed); when it succeeds its result is stored in the event under `.y` and `back` is
-//! run on that event.  Each step is reported as {"ok": value} | {"err": "compile"|"abort"|"error"} |
-//! {"panic": msg}; panics are caught per step so that the model's Panic outcome can be compared.
-//! case: {"op": name, "fwd": "<vrl source>", "back": "<vrl source>"|null, "event": value(object), "tz": "UTC"?}
-//! result: {"fwd": step, "back": step|null}
+//! C25: paired conversion functions.  A case names the two stdlib calls and gives the input:
+//!   {"op": label, "f": fn, "g": fn|null, "x": value}
+//!   fn = {"fn": "format_int", "base": value?} | {"fn": "parse_int", "base": value?} | {"fn": "ip_aton"} | ... |
+//!        {"fn": "flatten", "sep": value?, "except": [str]?} | {"fn": "unflatten", "sep": value?, "recursive": value?} |
+//!        {"fn": "to_unix_timestamp"|"from_unix_timestamp", "unit": str} | {"fn": "format_timestamp"|"parse_timestamp", "fmt": value}
+//! The harness writes the VRL source of each call (`name!(.x, ...)`: every argument is read from an event field, so
+//! it is runtime-typed; `unit`/`except` must be literals), compiles it with the real compiler + stdlib (cached by
+//! source) and runs it with Runtime::resolve on an event holding the arguments.  When the first call succeeds its
+//! result is stored under `.y` and the second call is run on `.y`.  Each step is reported as
+//! {"ok": value} | {"err": "compile"|"abort"|"error"} | {"panic": msg}; panics are caught per step so that the
+//! model's Panic outcome can be compared.
+//! result: {"fwd": step, "back": step|null, "fwd_src": source, "back_src": source|null}
 use serde_json::{json, Value as J};
 use std::cell::RefCell;
 use std::collections::{BTreeMap, HashMap};
 use std::rc::Rc;
 use vrl::compiler::runtime::{Runtime, Terminate};
 use vrl::compiler::{Program, TargetValue, TimeZone};
-use vrl::value::{Secrets, Value};
+use vrl::value::{ObjectMap, Secrets, Value};
 use vrl_verif_harness::vj::*;
 
 thread_local! {
@@ -65,25 +70,88 @@ fn step(src: &str, event: &Value, tz: &TimeZone) -> J {
     }
 }
 
+fn vrl_str(s: &str) -> String {
+    format!("\"{}\"", s.replace('\\', "\\\\").replace('"', "\\\""))
+}
+
+/// VRL source of one call on `arg` (".x" or ".y"); the other arguments are event fields filled by `event_fields`.
+fn src_of(f: &J, arg: &str, second: bool) -> String {
+    let n = f["fn"].as_str().expect("fn name");
+    let has = |k: &str| f.get(k).is_some();
+    let p = if second { "g_" } else { "f_" };
+    match n {
+        "format_int" | "parse_int" => {
+            if has("base") { format!("{n}!({arg}, .{p}base)") } else { format!("{n}!({arg})") }
+        }
+        "ip_aton" | "ip_ntoa" | "ip_pton" | "ip_ntop" | "ip_to_ipv6" | "ipv6_to_ipv4" | "to_entries" | "from_entries" => {
+            format!("{n}!({arg})")
+        }
+        "flatten" => {
+            let mut s = format!("flatten!({arg}");
+            if has("sep") {
+                s += &format!(", separator: .{p}sep");
+            }
+            if let Some(ex) = f.get("except").and_then(|e| e.as_array()) {
+                if !ex.is_empty() {
+                    let ks: Vec<String> = ex.iter().map(|k| vrl_str(k.as_str().expect("except key"))).collect();
+                    s += &format!(", except: [{}]", ks.join(", "));
+                }
+            }
+            s + ")"
+        }
+        "unflatten" => {
+            let mut s = format!("unflatten!({arg}");
+            if has("sep") {
+                s += &format!(", separator: .{p}sep");
+            }
+            if has("recursive") {
+                s += &format!(", recursive: .{p}recursive");
+            }
+            s + ")"
+        }
+        "to_unix_timestamp" | "from_unix_timestamp" => {
+            format!("{n}!({arg}, unit: {})", vrl_str(f["unit"].as_str().expect("unit")))
+        }
+        "format_timestamp" | "parse_timestamp" => format!("{n}!({arg}, .{p}fmt)"),
+        _ => panic!("unknown function {n}"),
+    }
+}
+
+fn event_fields(f: &J, second: bool, ev: &mut ObjectMap) {
+    let p = if second { "g_" } else { "f_" };
+    for k in ["base", "sep", "recursive", "fmt"] {
+        if let Some(v) = f.get(k) {
+            ev.insert(format!("{p}{k}").into(), from_json(v));
+        }
+    }
+}
+
 pub fn run(case: &J) -> J {
     let tz = match case.get("tz").and_then(|t| t.as_str()) {
         None => TimeZone::parse("UTC").expect("UTC"),
         Some(name) => TimeZone::parse(name).expect("timezone"),
     };
-    let event = from_json(&case["event"]);
-    let fwd_src = case["fwd"].as_str().expect("fwd source");
-    let fwd = step(fwd_src, &event, &tz);
-    let mut back = J::Null;
-    if let Some(back_src) = case.get("back").and_then(|b| b.as_str()) {
-        if let Some(y) = fwd.get("ok") {
-            let mut ev2 = event.clone();
-            if let Value::Object(m) = &mut ev2 {
-                m.insert("y".into(), from_json(y));
-            }
-            back = step(back_src, &ev2, &tz);
-        }
+    let f = &case["f"];
+    let g = case.get("g").filter(|g| !g.is_null());
+    let mut ev = ObjectMap::new();
+    ev.insert("x".into(), from_json(&case["x"]));
+    event_fields(f, false, &mut ev);
+    if let Some(g) = g {
+        event_fields(g, true, &mut ev);
     }
-    json!({"fwd": fwd, "back": back})
+    let fwd_src = src_of(f, ".x", false);
+    let fwd = step(&fwd_src, &Value::Object(ev.clone()), &tz);
+    let mut back = J::Null;
+    let mut back_src = J::Null;
+    if let Some(g) = g {
+        let src = src_of(g, ".y", true);
+        if let Some(y) = fwd.get("ok") {
+            ev.insert("y".into(), from_json(y));
+            back = step(&src, &Value::Object(ev), &tz);
+        }
+        back_src = J::String(src);
+    }
+    json!({"fwd": fwd, "back": back, "fwd_src": fwd_src, "back_src": back_src})
 }
 
 fn main() {
